@@ -225,6 +225,37 @@ def saveStepP (sa : String → Bool → SaveAction) (fl : Flags) (n : Name) (key
     ({ st with cat := r.1 }, ⟨r.2, none⟩)
   | .raise => (st, ⟨false, none⟩)
 
+/-! ### the builder chain `df.write.<call>.<call>…` -/
+
+inductive Call
+  | byName                       -- `.byName`
+  | mode (m : Option String)     -- `.mode(m)`
+  deriving DecidableEq, Repr
+
+/-- what a writer object carries -/
+structure WState where
+  byName : Bool := false
+  mode : Option String := none
+  deriving DecidableEq, Repr
+
+def applyCallP (modeKeepsByName byNameKeepsMode : Bool) : Call → WState → WState
+  | .byName, w => { byName := true, mode := if byNameKeepsMode then w.mode else none }
+  | .mode m, w => { mode := m, byName := if modeKeepsByName then w.byName else false }
+
+def writerStateP (k1 k2 : Bool) (calls : List Call) : WState :=
+  calls.foldl (fun w c => applyCallP k1 k2 c w) {}
+
+/-- the writer a chain of builder calls produces, with the regenerated decisions -/
+def writerState := writerStateP Gen.modeKeepsByName Gen.byNameKeepsMode
+
+def lastModeStep (m : Option String) : Call → Option String
+  | .mode x => x
+  | .byName => m
+
+/-- specification: `.byName` anywhere in the chain asks for by-name; the last `.mode` wins -/
+def specChain (calls : List Call) : WState :=
+  { byName := calls.any (fun c => c = .byName), mode := calls.foldl lastModeStep none }
+
 inductive Op
   | save (n : Name) (arg st : Option String) (f : Frame)     -- df.write.mode(st).saveAsTable(n, mode=arg)
   | insertInto (n : Name) (byName : Bool) (f : Frame)        -- df.write[.byName].insertInto(n)
